@@ -810,7 +810,8 @@ fn parse_expr(
                 Rule::or => Op::Or,
                 Rule::xor => Op::Xor,
                 Rule::unwrap => {
-                    if span.as_rule() != Rule::ident {
+                    // `true`, `false`, `nil` and `self` are lexed as identifiers but are not names
+                    if span.as_rule() != Rule::ident || !matches!(&lhs, Expr::Value(Value::Ident(..))) {
                         log::error!("found `{:?}` instead of `ident`", span.as_rule());
 
                         return Err(vec![new_err(
